@@ -87,20 +87,3 @@ Proof. eexists. eexists. split; [vm_compute; reflexivity|]. split; [vm_compute; 
 (** [C06_vlq_model_is_rust]: the range is the whole of isize; outside it the 64-bit computation differs *)
 Example vlq64_differs_outside : vlq_sextets64 (2 ^ 64 + 5)%Z <> vlq_sextets (2 ^ 64 + 5)%Z.
 Proof. vm_compute. discriminate. Qed.
-
-(** [C06_operation_definitions_are_mapped]: a document with a named query and an imported fragment
-    (file 2), default options; the run succeeds and the mappings decode to 16 segments *)
-From V Require C14.Model C06.ProofsDefs.
-Module PX := C14.Model.
-Definition ex_doc14 : PX.doc :=
-  PX.Doc 1 [PX.OpDef PX.KQuery (Some (s "me", PX.P 1 6 1 false)) (PX.P 1 0 1 false) (PX.P 1 9 1 false);
-            PX.FragDef (s "F") (PX.P 0 0 2 false)].
-Definition ex_bodies : list PX.defbody :=
-  [PX.Body [PX.W (s "{"); PX.Indent; PX.W [10%N]; PX.WF (s "me") (PX.P 2 2 1 false) (Some (s "me")); PX.W (s ": string;"); PX.Dedent; PX.W (10%N :: s "}")]
-           [PX.W (s "{}")] [PX.W (s "{}")] (s "{}");
-   PX.Body [PX.W (s "{}")] [] [] (s "{}")].
-Example operation_definitions_example :
-  option_map (fun st => (option_map (@length seg) (decode_mappings (mbuf (sw_map st))), nm_all (sw_names st)))
-    (sw_run (Some [0; 1; 2]%N) (map ProofsDefs.conv_wop (PX.dts_ops PX.type_default ex_doc14 ex_bodies)))
-  = Some (Some 16%nat, [s "me"; s "F"]).
-Proof. vm_compute. reflexivity. Qed.
